@@ -71,6 +71,7 @@ var shapeFocus = map[string]string{
 	"pending-calls":                        "syncCall syncCancel close dealer timerCancel",
 	"bad-realm-uri":                        "addRealm AddRealm newRealm newBroker newDealer RealmTemplate AttachClient",
 	"removerealm-during-auth":              "getAuthenticator authClient RemoveRealm AttachClient close actionChan",
+	yrShape:                                "yield syncYield syncCancel sendResultDeadline yieldRetryDelay keepInvocation dealer",
 }
 
 var c07Shapes = []struct {
@@ -1030,6 +1031,7 @@ func expandC06(o *genOpts, k int, base *History) []*History {
 func generate(o *genOpts) []*History {
 	var out []*History
 	if o.prop == "C07" {
+		out = append(out, genYieldResume(o)...)
 		for k := 0; k < o.n; k++ {
 			out = append(out, genC07(o, k))
 		}
